@@ -52,7 +52,9 @@ func runC04(c *Ctx) int {
 		return c.replayAPI(mon, 1_000_000)
 	}
 	n := c.Pick(640, 40000)
-	progs := apiPrograms(c.Seed, n, []string{"mixed", "structural", "buckets", "big", "mixed"}, nil)
+	progs := apiPrograms(c.Seed, n, []string{"mixed", "structural", "buckets", "big", "mixed"}, func(i int, cfg *gen.Config) {
+		cfg.FailCommit = 0.1 // a failed commit must leave the state the model has (all-or-nothing through the API)
+	})
 	monT := mon
 	monT.Format = true // decode with D to observe transitions; format mismatches are C12's, so they are reported under C12 only
 	agg := c.runPrograms(progs, monT, c.Pick(20, 100), 1_000_000, func(cs *apiCase) bool {
